@@ -385,4 +385,50 @@ def app (cfg : Cfg) (be : Backend) (req : Req) : Reply × List Action :=
     else (.http resp405, [])
   else (.http resp404, [])
 
+/-! ### the process-global Pyro configuration and histories of requests
+
+`pyro_app` begins every request by writing `config.SERIALIZER = "json"` and
+`config.COMMTIMEOUT = pyro_app.comm_timeout` (297-298).  The proxies it creates read the global
+configuration when they send, so the configuration in force while a request is handled decides in
+which wire format the call travels and comes back.  Other code in the same process may change the
+configuration between two requests (`perturb`). -/
+
+inductive Ser where
+  | json | serpent | marshal | msgpack
+  deriving DecidableEq, Repr
+
+/-- the two items of `Pyro5.config` the gateway writes; COMMTIMEOUT in milliseconds -/
+structure PyroConfig where
+  serializer : Ser
+  commTimeout : Nat
+  deriving DecidableEq, Repr
+
+/-- pyro_app 297-298: unconditional, whatever the configuration was before -/
+def writeConfig (appTimeout : Nat) (_before : PyroConfig) : PyroConfig := ⟨.json, appTimeout⟩
+
+/-- one handled request: reply, action log, and the configuration in force while (and after) it ran -/
+structure Outcome where
+  reply : Reply
+  actions : List Action
+  config : PyroConfig
+
+/-- pyro_app as a step on the global configuration -/
+def appC (cfg : Cfg) (appTimeout : Nat) (be : Backend) (before : PyroConfig) (req : Req) : Outcome :=
+  let r := app cfg be req
+  ⟨r.1, r.2, writeConfig appTimeout before⟩
+
+/-- what happens in the process, in order: a request (with the gateway settings, `pyro_app.comm_timeout`
+    and the world behind the gateway as they are at that moment), or other code writing `Pyro5.config` -/
+inductive HEv where
+  | request (cfg : Cfg) (appTimeout : Nat) (be : Backend) (req : Req)
+  | perturb (c : PyroConfig)
+
+/-- the outcomes of the requests of a history, starting from configuration `c` -/
+def runHistory : PyroConfig → List HEv → List Outcome
+  | _, [] => []
+  | _, .perturb c' :: rest => runHistory c' rest
+  | c, .request cfg tmo be req :: rest =>
+    let o := appC cfg tmo be c req
+    o :: runHistory o.config rest
+
 end Pyro.Gateway
